@@ -22,3 +22,11 @@ def guards_preprocessor(f):
 
 guards_preprocessor.all_returns = True
 guards_preprocessor.extra_calls = ('insert', 'remove', 'push', 'process_nodes', 'unwrap_or_default')
+
+
+def guards_slice_grammar(f):
+    return (f.span.file or '') == 'slicec/src/parsers/slice/grammar.rs' and not f.generated
+
+
+guards_slice_grammar.all_returns = True
+guards_slice_grammar.extra_calls = ('push', 'insert', 'retain', 'replace', 'from_str_radix', 'add_named_element', 'add_element', 'push_into', 'contains')
